@@ -13,7 +13,7 @@ OutFile == IF "GEN_OUT" \in DOMAIN IOEnv THEN IOEnv.GEN_OUT ELSE "/dev/null"
 \* first operands: rich coefficient variants; second operands: two variants
 OrdersA == IF Thorough THEN 0..3 ELSE 0..2
 OrdersB == IF Thorough THEN 0..3 ELSE 0..2
-GridsA == IF Thorough THEN {E4, N5, F5, N6} ELSE {E4, N5}
+GridsA == IF Thorough THEN {E4, N5, F5, N6, Z4} ELSE {E4, N5, Z4}
 RichOn(g) == Len(g) <= (IF Thorough THEN 5 ELSE 4)
 
 FirstOperands == UNION {SplinesOn(g, OrdersA, RichOn(g)) : g \in GridsA}
